@@ -508,6 +508,8 @@ class CuckooFilter:
         # generate the fingerprint along with the two possible indecies
         hash_val = self.__hash_func(key)
         fingerprint = get_x_bits(hash_val, 64, self.fingerprint_size_bits, True)
+        if fingerprint == 0:  # 0 marks an empty slot in the exported format, it cannot be a fingerprint
+            fingerprint = 1
         idx_1, idx_2 = self._indicies_from_fingerprint(fingerprint)
 
         # NOTE: This should never happen...
